@@ -10,14 +10,14 @@ PROPERTY = "C02"
 def generate_big(seed, prop):
     """Scale probe (thorough tier only, ~1 run in 2000): one in-memory rejection step over > 2**20 prior samples."""
     rnd = tape.sub(seed, prop, "gen-big")
-    cfg = common.base_config(seed, prop, rnd, tier="thorough", n_libs=1, n_data=1, profile="informative", allow_f4=False)
+    cfg = common.base_config(seed, prop, rnd, tier="thorough", n_libs=1, n_data=1, profile="spike", allow_f4=False)
     lib = cfg["libraries"][0]
     lib["n"] = 2**20 + rnd.randint(1000, 2**17)
     lib["duplicates"] = []
     lib["units"] = {"P": "d", "omega": "rad", "M0": "rad", "s": cfg["datasets"][0]["rv_unit"]}
     d = cfg["datasets"][0]
-    d["orbit_from"] = [0, lib["n"] - rnd.randint(1, 2**16)]  # the best sample sits in the LAST part of the library
-    d["n_epochs"] = max(d["n_epochs"], 5)
+    d["orbit_from"] = [0, rnd.randint(2**20, lib["n"] - 1)]  # the best sample sits beyond row 2**20
+    d["n_epochs"] = 12 if d["n_sources"] == 1 else 6  # enough epochs for the generating orbit to stand out of 10^6 samples
     kw = {"n_linear_samples": 1}
     if rnd.random() < 0.5:
         kw["max_posterior_samples"] = rnd.randint(1, 50)
